@@ -124,6 +124,12 @@ func c01RExp(sb *strings.Builder, e syntax.Exp) error {
 			id = t.Call.GetFqid()
 		}
 		sb.WriteString("(merge " + id + " ")
+		// the node whose forks enumerate the elements at run time (`findMergeForkNode`)
+		if t.ForkNode != nil {
+			sb.WriteString("(fn " + t.ForkNode.Id + ") ")
+		} else {
+			sb.WriteString("(fn) ")
+		}
 		if err := c01RExp(sb, t.Value); err != nil {
 			return err
 		}
@@ -260,6 +266,8 @@ func c01CompileStatic(src string) (prog, cg string, err error) {
 type c01StaticReply struct {
 	skip   bool
 	frag   bool
+	kinds  string
+	why    string
 	den    string
 	rt     string
 	static string
@@ -274,7 +282,12 @@ func c01ParseStatic(reply string) c01StaticReply {
 	if len(f) != 5 || f[0] != "static" {
 		return c01StaticReply{bad: reply}
 	}
-	return c01StaticReply{frag: f[1] == "frag=1", den: strings.TrimPrefix(f[2], "den="),
+	why := ""
+	if i := strings.Index(f[1], "|"); i >= 0 {
+		why = f[1][i+1:]
+		f[1] = f[1][:i]
+	}
+	return c01StaticReply{frag: strings.HasPrefix(f[1], "frag=1"), kinds: strings.TrimPrefix(f[1], "frag=1"), why: why, den: strings.TrimPrefix(f[2], "den="),
 		rt: strings.TrimPrefix(f[3], "rt="), static: f[4]}
 }
 
@@ -324,8 +337,20 @@ func c01StaticCheck(c *Ctx, cases []c01StaticCase, stream string, reported map[s
 		r.hist("static:" + stream + ":covered by the static model (plain or statically sized map calls of stages)")
 		if rep.frag {
 			r.hist("static:" + stream + ":inside-proved-fragment")
+			if strings.Contains(rep.kinds, "R") {
+				r.hist("static:" + stream + ":inside-proved-fragment with map calls of run-time size (given the recorded index sets)")
+			}
+			if strings.Contains(rep.kinds, "E") {
+				r.hist("static:" + stream + ":inside-proved-fragment with run-time disabled controls (modulo dnull->null)")
+			}
 		} else {
 			r.hist("static:" + stream + ":outside-proved-fragment (type check of the model)")
+			if rep.why != "" {
+				r.hist("static:" + stream + ":outside because: " + rep.why)
+			}
+			if strings.Contains(rep.kinds, "X") {
+				r.hist("static:" + stream + ":run-time sized fragment except the index sets (empty / null source, or recorded != source)")
+			}
 		}
 		if rep.static != cs.cg {
 			r.hist("static:" + stream + ":DIFF")
@@ -370,7 +395,7 @@ func c01StaticCheck(c *Ctx, cases []c01StaticCase, stream string, reported map[s
 				r.violate(Violation{Kind: "correspondence", Key: "C01:two-phase-vs-den",
 					What:   "twoPhase differs from den on a program that passes wellTypedB/acyclicB (the driver's encoding or the theorem's replay is broken)",
 					Input:  map[string]interface{}{"program": cs.src, "name": cs.name},
-					Broken: "resolver_refines_den_mapstatic_checked / resolver_refines_den_mappedpipes_checked"})
+					Broken: "resolver_refines_den_mapstatic_checked / resolver_refines_den_mappedpipes_checked / resolver_refines_den_disabled_checked / resolver_refines_den_runtime_checked"})
 			}
 		}
 		if rep.den == "eq" {
